@@ -12,6 +12,7 @@ import (
 
 	semart "github.com/goplus/llgo/runtime/internal/lib/runtime"
 	rt "github.com/goplus/llgo/runtime/internal/runtime"
+	"github.com/goplus/llgo/runtime/syncx"
 	"github.com/goplus/llgo/runtime/vs"
 )
 
@@ -307,10 +308,14 @@ func main() {
 	spur := flag.Int("spurious", 1, "spurious wake-up bound")
 	maxExecs := flag.Int64("maxexecs", 0, "per-scenario execution cap (0 = none)")
 	budget := flag.Int("budget", 0, "wall-clock budget in seconds for this shard (0 = none)")
+	envb := flag.Int("env", 1, "environment-answer bound (sync mode: clock readings that cross the starvation threshold)")
 	out := flag.String("out", "", "result JSON")
 	replay := flag.String("replay", "", "violation JSON to replay")
 	flag.Parse()
 	res := &Result{Mode: *mode, Family: *family, Bounds: map[string]int{"preemptions": *pre, "spurious_wakeups": *spur}}
+	if *mode == "sync" {
+		res.Bounds["env_deviations"] = *envb
+	}
 	deadline := time.Now().Add(365 * 24 * time.Hour)
 	if *budget > 0 {
 		deadline = time.Now().Add(time.Duration(*budget) * time.Second)
@@ -321,6 +326,31 @@ func main() {
 		runChan(*family, *shard, *nshards, b, deadline, res)
 	case "sema", "notify":
 		semart.RunFamily(*mode, *family, *shard, *nshards, b, deadline, func(scen int, execs, points, dead, horiz int64, nout int, capped bool, depth int, sample string, v *semart.Viol) {
+			res.Scenarios += scen
+			res.Execs += execs
+			res.Points += points
+			res.Deadlocks += dead
+			res.Horizons += horiz
+			res.Outcomes += int64(nout)
+			if nout > 1 {
+				res.MultiOut++
+			}
+			if capped {
+				res.Capped++
+			}
+			if depth > res.MaxDepth {
+				res.MaxDepth = depth
+			}
+			if sample != "" && len(res.Samples) < 3 {
+				res.Samples = append(res.Samples, sample)
+			}
+			if v != nil && len(res.Violations) < 50 {
+				res.Violations = append(res.Violations, Violation{Key: v.Key, What: v.What, Scenario: v.Scenario, Choices: v.Choices, Mode: *mode})
+			}
+		}, func() { res.TimedOut = true })
+	case "sync":
+		b.Env = *envb
+		syncx.RunFamily(*family, *shard, *nshards, b, deadline, func(scen int, execs, points, dead, horiz int64, nout int, capped bool, depth int, sample string, v *syncx.Viol) {
 			res.Scenarios += scen
 			res.Execs += execs
 			res.Points += points
@@ -374,6 +404,11 @@ func main() {
 				if i == 1 {
 					fmt.Println(outs[1])
 					fmt.Println("allowed outcomes:", rt.SortedKeys(ref))
+				}
+			case "sync":
+				outs = append(outs, syncx.Replay(sj, v.Choices, *spur, i == 1))
+				if i == 1 {
+					fmt.Println(outs[1])
 				}
 			default:
 				outs = append(outs, semart.Replay(v.Mode, sj, v.Choices, *spur, i == 1))
